@@ -158,6 +158,19 @@ def _special(_):
                 if other != sub:
                     shutil.rmtree(os.path.join(path, other))
         expect_refused("directory holds %s/ but no hashstore.yaml" % sub, good, True, prep)
+    # a configuration file that lost a key does not pin the store any more: it must be refused
+    import re
+    for k in ("store_depth", "store_width", "store_algorithm", "store_metadata_namespace"):
+        def prep(path, k=k):
+            y = os.path.join(path, "hashstore.yaml")
+            with open(y) as f:
+                txt = f.read()
+            with open(y, "w") as f:
+                f.write(re.sub(r"(?m)^%s:.*\n" % k, "", txt))
+        other = dict(good)
+        other[k] = {"store_depth": 4, "store_width": 3, "store_algorithm": "MD5", "store_metadata_namespace": "ns://z"}[k]
+        expect_refused("hashstore.yaml lacks %s, reopened with another value for it" % k, other, True, prep)
+        expect_refused("hashstore.yaml lacks %s, reopened with the creation values" % k, good, True, prep)
     # extra keys are harmless: accepted with equal values, and nothing changes
     path = fresh()
     before = snap_parent(parent)
